@@ -18,6 +18,8 @@ const (
 	awaitingPubcomp
 	awaitingDisconnect
 	awaitingPingresp
+	// sleepTransaction: asleep, waiting for the wake-up timer.
+	sleeping
 )
 
 type transaction struct {
